@@ -10,7 +10,7 @@ _CONN_ASSUME = ["OS filesystem: lexical resolution of '..'-free absolute paths; 
 PROPS = {
  "C01": {
   "props_modules": ["Ps3.Props.C01"],
-  "streams": [{"name": "c01", "bad_obs": BAD_OBS}, {"name": "c01p"}],
+  "streams": [{"name": "c01", "bad_obs": BAD_OBS}, {"name": "c01p"}, {"name": "c05", "bad_obs": BAD_OBS}],
   "rule": "c01: every one of the 8 path-carrying opcodes x hostile path strings (fixed escapes + random walks over {.., ., '', sibling-with-root-prefix, NUL, 255-byte, names of the tree}) x writing on/off x with/without prior history; "
           "each session is run twice with different worlds OUTSIDE the root (oracle = twin run) and the recorder under BasePathFs counts OS paths outside the root; non-trivial = path contains '..', NUL or is over-long. "
           "c01p: filepath.Clean('/'+p) and BasePathFs.RealPath vs the Lean PathStr model on random component strings x 8 root spellings",
